@@ -189,14 +189,15 @@ impl FinalityTracker {
                 assert_eq!(&hash, block_hash, "consensus safety violation");
                 FinalizationEvent::default()
             }
-            FinalizationStatus::Finalized(ref hash)
-            | FinalizationStatus::ImplicitlyFinalized(ref hash) => {
+            FinalizationStatus::Finalized(ref hash) => {
                 assert_eq!(hash, block_hash, "consensus safety violation");
                 // slot is already decided, keep the stronger status
                 self.status.insert(*slot, status);
                 FinalizationEvent::default()
             }
-            FinalizationStatus::ImplicitlySkipped => {
+            // NOTE: A block that is only finalized through a descendant
+            //       does not exclude a notarized sibling in its slot.
+            FinalizationStatus::ImplicitlyFinalized(_) | FinalizationStatus::ImplicitlySkipped => {
                 // slot is already decided, keep the stronger status
                 self.status.insert(*slot, status);
                 FinalizationEvent::default()
@@ -342,10 +343,9 @@ impl FinalityTracker {
                     self.status.insert(slot, status);
                     return;
                 }
-                FinalizationStatus::Notarized(hash) => {
-                    assert_eq!(hash, &block_hash, "consensus safety violation");
-                }
-                FinalizationStatus::FinalPendingNotar => {}
+                // NOTE: The notarized block may be a sibling of the implicitly finalized one,
+                //       only direct finalization excludes other notarized blocks in the slot.
+                FinalizationStatus::Notarized(_) | FinalizationStatus::FinalPendingNotar => {}
                 FinalizationStatus::ImplicitlySkipped => {
                     panic!("consensus safety violation")
                 }
@@ -495,6 +495,43 @@ mod tests {
         // do NOT implicitly finalize parent again when adding parent again
         let event = tracker.add_parent((slot4, hash4), (slot3, hash3));
         assert_eq!(event, FinalizationEvent::default());
+    }
+
+    #[test]
+    fn notarized_sibling_of_implicitly_finalized() {
+        // an implicitly finalized block may have a notarized sibling in its slot,
+        // e.g. one block has a notarization and the other a notar-fallback certificate
+        let (slot4, hash4) = random_block_id(Slot::new(4));
+        let (_, sibling) = random_block_id(slot4);
+        let (slot8, hash8) = random_block_id(Slot::new(8));
+
+        // sibling is notarized BEFORE the block is implicitly finalized
+        let mut tracker = FinalityTracker::default();
+        let event = tracker.mark_notarized((slot4, sibling.clone()));
+        assert_eq!(event, FinalizationEvent::default());
+        let event = tracker.add_parent((slot8, hash8.clone()), (slot4, hash4.clone()));
+        assert_eq!(event, FinalizationEvent::default());
+        let event = tracker.mark_fast_finalized((slot8, hash8.clone()));
+        assert_eq!(event.finalized, Some((slot8, hash8.clone())));
+        assert_eq!(event.implicitly_finalized, vec![(slot4, hash4.clone())]);
+        assert_eq!(
+            tracker.status.get(&slot4),
+            Some(&FinalizationStatus::ImplicitlyFinalized(hash4.clone()))
+        );
+
+        // sibling is notarized AFTER the block is implicitly finalized
+        let mut tracker = FinalityTracker::default();
+        let event = tracker.add_parent((slot8, hash8.clone()), (slot4, hash4.clone()));
+        assert_eq!(event, FinalizationEvent::default());
+        let event = tracker.mark_fast_finalized((slot8, hash8.clone()));
+        assert_eq!(event.finalized, Some((slot8, hash8)));
+        assert_eq!(event.implicitly_finalized, vec![(slot4, hash4.clone())]);
+        let event = tracker.mark_notarized((slot4, sibling));
+        assert_eq!(event, FinalizationEvent::default());
+        assert_eq!(
+            tracker.status.get(&slot4),
+            Some(&FinalizationStatus::ImplicitlyFinalized(hash4))
+        );
     }
 
     #[test]
